@@ -2,7 +2,7 @@
 //! table as part of their query. If they can't, the query will not be routed.
 
 use async_trait::async_trait;
-use sqlparser::ast::{visit_relations, ObjectName, Statement};
+use sqlparser::ast::{visit_relations, CopySource, ObjectName, ObjectType, Statement};
 
 use crate::{
     errors::Error,
@@ -55,6 +55,28 @@ impl<'a> Plugin for TableAccess<'a> {
             }
             None => ControlFlow::<()>::Continue(()),
         });
+
+        // Relations the visitor does not walk.
+        for statement in ast {
+            let names: Vec<&ObjectName> = match statement {
+                Statement::Copy {
+                    source: CopySource::Table { table_name, .. },
+                    ..
+                } => vec![table_name],
+                Statement::Drop {
+                    object_type: ObjectType::Table,
+                    names,
+                    ..
+                } => names.iter().collect(),
+                _ => vec![],
+            };
+
+            for name in names {
+                if found.is_none() {
+                    found = blocked(name);
+                }
+            }
+        }
 
         if let Some(found) = found {
             debug!("Blocking access to table \"{}\"", found);
